@@ -31,6 +31,7 @@ T_INVARIANTS = ('ShapeKept', 'NaNKept', 'RankTheorems', 'RankIdempotent', 'Posit
 
 def tcfg(nc, voff, vspan, maxnan, stacks, transforms='TrAll', emitmod=1):
     lines = ['CONSTANTS', f'  NC = {nc}', f'  VOff = {voff}', f'  VSpan = {vspan}', f'  MaxNaN = {maxnan}',
+             f"  TwoRdm = {'TRUE' if stacks == 'Stacks12' else 'FALSE'}",
              f'  Stacks <- {stacks}', f'  Transforms <- {transforms}',
              '  MeasClasses = {"none", "plain", "sqeuclid", "ranked"}', '  NaNv <- NaNvDef',
              f'  EmitMod = {emitmod}', 'INIT Init', 'NEXT Next']
